@@ -266,7 +266,8 @@ def extra_units():
         out.append(v)
     # a molecule that is ejected while a fragment can still join it splits a true molecule: C07's no-late-join contract
     from contracts import c07
-    for u in (c07.can_be_yielded, c07.add_span):
+    # ... and an ejection check only removes what it emits (the whole hash-group body, C07)
+    for u in (c07.can_be_yielded, c07.add_span, c07.group_body, c07.eject_branches):
         v = copy.copy(u)
         v.prop = PROP
         out.append(v)
